@@ -88,8 +88,15 @@ pub fn compact(cells: &[u64]) -> Result<Vec<u64>, String> {
         return Ok(Vec::new());
     }
 
+    // Validate every id and reduce it to its canonical form first: a word with stray bits below its resolution
+    // marker is the same cell as the canonical id and must take part in sibling groups and in the dedup as such
+    let canonical_cells = cells
+        .iter()
+        .map(|&cell| cell_to_parent(cell, Some(get_resolution(cell))))
+        .collect::<Result<Vec<u64>, String>>()?;
+
     // Single sort and dedup
-    let unique_cells: HashSet<u64> = cells.iter().copied().collect();
+    let unique_cells: HashSet<u64> = canonical_cells.into_iter().collect();
     let mut current_cells: Vec<u64> = unique_cells.into_iter().collect();
     // Sort hierarchically rather than numerically: the ids of resolution 0 cells interleave with
     // the ids of resolution 1 cells of other faces, but siblings must be adjacent
